@@ -216,3 +216,120 @@ pub fn check(c: &IdxCase) -> Verdict {
         .class_if(chunked_skipped, "chunked-index-skipped-no-tempdir")
         .class_if(n == 0, "empty")
 }
+
+// ------------------------------------------------------------------ duplicate keys
+
+/// Equal keys are legal in an archive index (documented collision handling; unavoidable with
+/// 1-2 byte keys). A run of equal keys may sit anywhere, also across a 4 KiB chunk boundary.
+#[derive(Debug, Clone, Serialize, Deserialize)]
+pub struct DupCase {
+    pub key_size: u8,
+    pub offset_bytes: u8,
+    /// number of distinct keys
+    pub n: usize,
+    /// (where the run starts, as a selector over the final record positions; run length 2..=6)
+    pub runs: Vec<(u16, u8)>,
+    /// place the first run so that it straddles the first chunk boundary
+    pub straddle: bool,
+    pub seed: u64,
+}
+
+pub fn check_dups(c: &DupCase) -> Verdict {
+    let rpc = records_per_chunk(c.key_size, c.offset_bytes).max(2);
+    let mut r = Rng::new(c.seed ^ 0x6475_70);
+    let ksz = c.key_size as usize;
+    // distinct sorted keys: big-endian counter spread over the key space (fits any key size >= 2;
+    // key size 1 holds at most 256)
+    let n = if ksz == 1 { c.n.min(200) } else { c.n };
+    let mut keys: Vec<Vec<u8>> = (0..n)
+        .map(|i| {
+            let v = (i as u64 + 1) * if ksz == 1 { 1 } else { 37 };
+            let be = v.to_be_bytes();
+            let mut k = vec![0u8; ksz];
+            let take = ksz.min(8);
+            k[..take].copy_from_slice(&be[8 - take..]);
+            if ksz > 8 {
+                k[8..].fill(0xee);
+            }
+            k
+        })
+        .collect();
+    keys.sort();
+    keys.dedup();
+    if keys.is_empty() {
+        return Verdict::pass().class("empty");
+    }
+    // multiplicity per key index
+    let mut mult = vec![1usize; keys.len()];
+    let mut runs = c.runs.clone();
+    for (sel, len) in runs.drain(..) {
+        let i = vh_engine::pick_idx(sel, keys.len());
+        mult[i] = mult[i].max(2 + usize::from(len % 5));
+    }
+    if c.straddle {
+        // the key whose first record is 2 before the end of the first chunk becomes a run of 4
+        let mut before = 0usize;
+        for m in mult.iter_mut() {
+            if before + 2 == rpc || (before + 2 < rpc && before + *m + 1 >= rpc) {
+                *m = (*m).max(4);
+                break;
+            }
+            before += *m;
+        }
+    }
+    let bits = 8 * u32::from(c.offset_bytes);
+    let max_off: u64 = if bits >= 64 { u64::MAX } else { (1u64 << bits) - 1 };
+    let mut b = ArchiveIndexBuilder::with_config(c.key_size, c.offset_bytes, 4);
+    let mut want: BTreeMap<Vec<u8>, Vec<(u32, u64)>> = BTreeMap::new();
+    let mut total = 0usize;
+    let mut crossing = false;
+    for (i, k) in keys.iter().enumerate() {
+        let first = total;
+        for _ in 0..mult[i] {
+            let size = 1 + (r.next_u64() as u32 >> 1);
+            let off = r.next_u64() & max_off & 0xFFFF_FFFF;
+            b.add_entry(k.clone(), size, off);
+            want.entry(k.clone()).or_default().push((size, off));
+            total += 1;
+        }
+        if mult[i] > 1 && first / rpc != (total - 1) / rpc {
+            crossing = true;
+        }
+    }
+    let cfg = format!("k={} w={} distinct={} records={total}", c.key_size, c.offset_bytes, keys.len());
+    let mut out = Cursor::new(Vec::new());
+    if let Err(e) = b.build(&mut out) {
+        return Verdict::fail("C03:archive-index:builder-refused-duplicate-keys", format!("{cfg}: {e}"));
+    }
+    let parsed = match ArchiveIndex::parse(Cursor::new(out.into_inner())) {
+        Ok(p) => p,
+        Err(e) => return Verdict::fail("C03:archive-index:built-file-with-duplicate-keys-does-not-parse", format!("{cfg}: {e}")),
+    };
+    for (k, exp) in &want {
+        let mut exp = exp.clone();
+        exp.sort_unstable();
+        // the linear scan
+        let mut scan: Vec<(u32, u64)> = parsed.entries.iter().filter(|e| e.encoding_key == *k).map(|e| (e.size, composite(e))).collect();
+        scan.sort_unstable();
+        if scan != exp {
+            return Verdict::fail("C03:archive-index:parsed-entries-differ-from-inserted", format!("{cfg}: key {} inserted {} times, parsed {} times", hex(k), exp.len(), scan.len()));
+        }
+        for (name, got) in [("find_all_entries", parsed.find_all_entries(k)), ("find_all_key_matches", parsed.find_all_key_matches(k))] {
+            let mut g: Vec<(u32, u64)> = got.iter().map(|e| (e.size, composite(e))).collect();
+            g.sort_unstable();
+            if g != scan {
+                return Verdict::fail(
+                    "C03:archive-index:all-matches-differ-from-linear-scan",
+                    format!("{cfg}: {name}({}) returns {} of the {} records a scan finds (records per chunk {rpc})", hex(k), g.len(), scan.len()),
+                );
+            }
+        }
+        match parsed.find_entry(k) {
+            Some(e) if e.encoding_key == *k && scan.contains(&(e.size, composite(e))) => {}
+            other => {
+                return Verdict::fail("C03:archive-index:find_entry-wrong-for-inserted-key", format!("{cfg}: duplicate key {} -> {:?}", hex(k), other.map(|e| (e.size, composite(e)))));
+            }
+        }
+    }
+    Verdict::pass().nontrivial(total > keys.len()).class_if(crossing, "run-of-equal-keys-crosses-a-chunk-boundary").class_if(total > rpc, "chunks>=2")
+}
